@@ -42,7 +42,7 @@ func pgTableDefs(schema []MyCfgCol) []pgsess.TableDef {
 }
 
 func genPGRewriteCase(t *rapid.T) PGCase {
-	c := PGCase{Startup: PGStartup{Auth: "ok", Params: []string{"server_version", "client_encoding"}}, Schema: genCfgCols(t)}
+	c := PGCase{Startup: PGStartup{Auth: "ok", Params: []string{"server_version", "client_encoding"}}, Schema: genCfgCols(t, false)}
 	all := pgTableCols(c.Schema)
 	pickCols := func(l string) ([]PGCol, bool) {
 		if rapid.IntRange(0, 2).Draw(t, l+".star") == 0 {
